@@ -92,7 +92,7 @@ def _all_keys(fn, a):
         if e[1]:
             ks.append(S(e[1][0]))
     cl = a[1]
-    if fn in (4, 5, 7, 11):
+    if fn in (4, 5, 7, 11, 14, 15):
         cl = a[1][0] if a[1] else []
     return ks + [S(k) for k in cl]
 
@@ -117,7 +117,7 @@ def model_arg(fn, arg):
         return arg
     e = lambda k: norm(m[S(k)])
     db = [[e(x[0]), [e(x[1][0])] if x[1] else []] for x in arg[0]]
-    if fn in (4, 5, 7, 11):
+    if fn in (4, 5, 7, 11, 14, 15):
         cl = [[e(k) for k in arg[1][0]]] if arg[1] else []
     else:
         cl = [e(k) for k in arg[1]]
@@ -426,6 +426,109 @@ def impl_py_multi(a):
         return _ci_out(cites, [_BIBITEM.findall(out), _reports(cap, _cands(db, cites))])
     return call_impl(f)
 
+# ---- the other input formats and the add_entries()/add_entry() API: the same BibliographyData filtering,
+#      reached through other readers (YAML and BibTeXML hand their entries to add_entries as a generator)
+import json as _json
+FORMATS = ['yaml', 'bibtexml']
+def yaml_text(db):
+    if not db:
+        return 'entries: {}\n'
+    out = ['entries:']
+    for i, (k, cr) in enumerate(db):
+        out.append('    %s:' % _json.dumps(k, ensure_ascii=False))
+        out.append('        type: misc')
+        if cr is not None:
+            out.append('        %s: %s' % (FIELD_SPELLINGS[i % 3], _json.dumps(cr, ensure_ascii=False)))
+        out.append('        p%d: "%d"' % (i, i))
+    return '\n'.join(out) + '\n'
+
+def bibtexml_text(db):
+    from xml.sax.saxutils import escape, quoteattr
+    out = ['<bibtex:file xmlns:bibtex="http://bibtexml.sf.net/">']
+    for i, (k, cr) in enumerate(db):
+        f = ''
+        if cr is not None:
+            f += '<bibtex:%s>%s</bibtex:%s>' % (FIELD_SPELLINGS[i % 3], escape(cr), FIELD_SPELLINGS[i % 3])
+        f += '<bibtex:p%d>%d</bibtex:p%d>' % (i, i, i)
+        out.append('<bibtex:entry id=%s><bibtex:misc>%s</bibtex:misc></bibtex:entry>' % (quoteattr(k), f))
+    out.append('</bibtex:file>')
+    return '\n'.join(out) + '\n'
+
+def _fmt_text(db, fmt):
+    return yaml_text(db) if fmt == 0 else bibtexml_text(db)
+def _fmt_parser(fmt):
+    if fmt == 0:
+        from pybtex.database.input.bibyaml import Parser
+    else:
+        from pybtex.database.input.bibtexml import Parser
+    return Parser
+
+def impl_parse_format(a):
+    db = _db(a[0]); wanted = _keys(a[1][0]) if a[1] else None; fmt = a[2]
+    def f():
+        from pybtex import errors
+        with errors.capture() as cap:
+            data = _fmt_parser(fmt)(wanted_entries=wanted).parse_string(_fmt_text(db, fmt))
+            cap = list(cap)
+        return _ci_out(wanted or [], [_entries_of(data), _reports(cap, _cands(db, wanted))])
+    return call_impl(f)
+
+def impl_add_entries(a):
+    db = _db(a[0]); wanted = _keys(a[1][0]) if a[1] else None; how = a[2]
+    def f():
+        from pybtex.database import BibliographyData
+        from pybtex import errors
+        with errors.capture() as cap:
+            data = BibliographyData(wanted_entries=wanted)
+            pairs = [(k, _entry(cr)) for k, cr in db]
+            if how == 0:
+                data.add_entries((p for p in pairs))          # a generator, as the YAML / BibTeXML readers pass
+            elif how == 1:
+                data.add_entries(pairs)
+            else:
+                for k, e in pairs:
+                    data.add_entry(k, e)
+            cap = list(cap)
+        return _ci_out(wanted or [], [_entries_of(data), _reports(cap, _cands(db, wanted))])
+    return call_impl(f)
+
+def impl_command_read_format(a):
+    db, cites, m, strict, fmt = _db(a[0]), _keys(a[1]), a[2], a[3], a[4]
+    def f():
+        from pybtex.bibtex.interpreter import Interpreter
+        it = Interpreter(_fmt_parser(fmt), None)
+        it.citations = list(cites)
+        it.bib_files = [io.BytesIO(_fmt_text(db, fmt).encode('utf-8'))]
+        it.min_crossrefs = m
+        _, cap = _strict_call(strict, it.command_read)
+        return _ci_out(cites, [list(it.citations), _reports(cap, _cands(db, cites)), list(it.bib_data.entries.keys())])
+    return call_impl(f)
+
+def impl_bibtex_format(a):
+    db, cites, m, strict, fmt = _db(a[0]), _keys(a[1]), a[2], a[3], a[4]
+    def f():
+        from pybtex.bibtex import BibTeXEngine
+        out, cap = _strict_call(strict, lambda: BibTeXEngine().format_from_files(
+            [io.BytesIO(_fmt_text(db, fmt).encode('utf-8'))], style=_bst_style(), citations=list(cites), min_crossrefs=m, bib_format=_fmt_parser(fmt)))
+        return _bibtex_out(db, cites, out, cap)
+    return call_impl(f)
+
+def impl_py_format(a):
+    db, cites, m, strict, fmt = _db(a[0]), _keys(a[1]), a[2], a[3], a[4]
+    def f():
+        from pybtex import PybtexEngine
+        def run(backend):
+            return PybtexEngine().format_from_files([io.BytesIO(_fmt_text(db, fmt).encode('utf-8'))], style='unsrt', citations=list(cites),
+                                                    min_crossrefs=m, bib_format=FORMATS[fmt], output_backend=backend)
+        try:
+            out, cap = _strict_call(strict, lambda: run(None))
+        except ValueError:
+            out, cap = _strict_call(strict, lambda: run(_key_backend()))
+            if _BIBITEM.findall(out):
+                raise
+        return _ci_out(cites, [_BIBITEM.findall(out), _reports(cap, _cands(db, cites))])
+    return call_impl(f)
+
 def impl_select_unfiltered(a):
     db, cites, m = _db(a[0]), _keys(a[1]), a[2]
     def f():
@@ -457,11 +560,16 @@ FUNCS = {
     11: ('bibtex Parser(wanted_entries).parse_files (2-3 sources)', impl_parse_files, ('T', DB, ('O', CITES), 'X')),
     12: ('BibTeXEngine.format_from_strings / format_from_files / make_bibliography(.aux) (2-3 sources)', impl_bibtex_multi, ('T', DB, CITES, 'N', 'B', 'X', 'X')),
     13: ('PybtexEngine.format_from_strings / format_from_files / make_bibliography(.aux) (2-3 sources)', impl_py_multi, ('T', DB, CITES, 'N', 'B', 'X', 'X')),
+    14: ('yaml / bibtexml Parser(wanted_entries).parse_string', impl_parse_format, ('T', DB, ('O', CITES), 'X')),
+    15: ('BibliographyData(wanted_entries).add_entries(generator | list) / add_entry loop', impl_add_entries, ('T', DB, ('O', CITES), 'X')),
+    16: ('Interpreter.command_read on a yaml / bibtexml database', impl_command_read_format, ('T', DB, CITES, 'N', 'B', 'X')),
+    17: ('BibTeXEngine.format_from_files on a yaml / bibtexml database', impl_bibtex_format, ('T', DB, CITES, 'N', 'B', 'X')),
+    18: ('PybtexEngine.format_from_files on a yaml / bibtexml database', impl_py_format, ('T', DB, CITES, 'N', 'B', 'X')),
 }
 # core's order-independence replay re-runs ~190 cases per function twice in one process; the Python engine end to end
 # costs 22 ms a case -- it stays in the replay through fn 13 (same PybtexEngine code, other entry points)
-ORDER_REPLAY_SKIP_FUNCS = (8,)
-BASE_FN = {11: 5, 12: 9, 13: 8}        # the multi-source entry points answer like these on the concatenation
+ORDER_REPLAY_SKIP_FUNCS = (8, 18)
+BASE_FN = {11: 5, 12: 9, 13: 8, 14: 5, 15: 4, 16: 6, 17: 9, 18: 8}        # the multi-source entry points answer like these on the concatenation
 
 FUNCS = dict((fn, (v[0], _wrap(fn, v[1]), v[2])) for fn, v in FUNCS.items())
 
@@ -753,14 +861,14 @@ def oracle(fn, arg, out):
 
 # ---------------------------------------------------------------------------------------------
 def _sig_cites(fn, arg):
-    if fn in (4, 5, 11):
+    if fn in (4, 5, 11, 14, 15):
         return _keys(arg[1][0]) if arg[1] else None
     return _keys(arg[1])
 KNOWN_SIGNATURES = {
     # narrow: the oracle itself recognises the pattern (an uncited cross-reference target placed before an entry
     # reachable from the citations, filtered reading, no wildcard) AND that the output is exactly what
     # skipping the not-yet-wanted entries explains
-    'F13': lambda kind, fn, arg, detail: (kind == 'oracle' and fn in (4, 5, 6, 8, 9, 11, 12, 13) and isinstance(detail, str)
+    'F13': lambda kind, fn, arg, detail: (kind == 'oracle' and fn in (4, 5, 6, 8, 9, 11, 12, 13, 14, 15, 16, 17, 18) and isinstance(detail, str)
                                           and detail.startswith('F13-pattern: ') and _sig_cites(fn, arg) is not None
                                           and f13_general(_db(arg[0]), _sig_cites(fn, arg))),
 }
@@ -784,7 +892,7 @@ def describe_out(out):
 
 def describe(fn, a):
     d = {'function': FUNCS[fn][0], 'database (file order)': ['%s -> %s' % (k, cr) if cr is not None else k for k, cr in _db(a[0])]}
-    if fn in (4, 5, 11):
+    if fn in (4, 5, 11, 14, 15):
         d['wanted_entries'] = _keys(a[1][0]) if a[1] else None
     elif fn == 7:
         d['citations'] = _keys(a[1][0]) if a[1] else None
@@ -796,6 +904,12 @@ def describe(fn, a):
         d['strict'] = bool(a[3]); d['source sizes'] = a[4]; d['entry point'] = ['format_from_strings', 'format_from_files', 'make_bibliography(.aux)'][a[5]]
     elif fn == 11:
         d.pop('min_crossrefs', None); d['source sizes'] = a[2]
+    elif fn == 14:
+        d.pop('min_crossrefs', None); d['format'] = FORMATS[a[2]]
+    elif fn == 15:
+        d.pop('min_crossrefs', None); d['through'] = ['add_entries(generator)', 'add_entries(list)', 'add_entry loop'][a[2]]
+    elif fn in (16, 17, 18):
+        d['strict'] = bool(a[3]); d['format'] = FORMATS[a[4]]
     elif len(a) > 3:
         d['strict'] = bool(a[3])
     return d
@@ -829,6 +943,11 @@ def cite_lists(maxlen, alpha=CITE_ALPHA):
         for t in itertools.product(alpha, repeat=n):
             yield list(t)
 
+def _fmt_ok(db, fmt):
+    """a YAML mapping cannot hold the same key twice (spelled identically); BibTeXML can"""
+    ks = [e[0] for e in db]
+    return fmt if (fmt == 1 or len(set(ks)) == len(ks)) else 1
+
 def gen(tier, rng):
     thorough = tier != 'quick'
     # (d) pinned: F13 and its neighbours, every disagreement seen while building
@@ -855,6 +974,11 @@ def gen(tier, rng):
         yield ('pinned', 1, [db, cites])
         yield ('pinned', 4, [db, [cites]])
         yield ('pinned', 5, [db, [cites]])
+        for fmt in (0, 1):
+            yield ('pinned', 14, [db, [cites], _fmt_ok(db, fmt)])
+            yield ('pinned', 16, [db, cites, m, 0, _fmt_ok(db, fmt)])
+        for how in (0, 1, 2):
+            yield ('pinned', 15, [db, [cites], how])
         yield ('pinned', 7, [db, [cites], m])
         yield ('pinned', 10, [db, cites, m])
         for strict in (0, 1):
@@ -895,6 +1019,12 @@ def gen(tier, rng):
                     yield ('exhaustive', 10, [db, cl, m])
                 if '*' not in cl and (thorough or k % 12 == 0):
                     yield ('exhaustive', 2, [db, cl, m])
+            if len(cl) <= 3 and (j % 3 == 0 if thorough else j % 20 == 0):
+                yield ('exhaustive', 14, [db, [cl], (j // 20) % 2])
+                yield ('exhaustive', 15, [db, [cl], (j // 3) % 3])
+                for m in ((1, 2) if thorough else (1 + (j // 40) % 2,)):
+                    if m <= max(1, len(db)):
+                        yield ('exhaustive', 16, [db, cl, m, 0, (j + m) % 2])
             if len(cl) <= 2 or (len(cl) == 3 and (thorough or j % 8 == 0)):
                 yield ('exhaustive', 4, [db, [cl]])
                 if thorough or len(cl) <= 2:
@@ -934,11 +1064,19 @@ def gen(tier, rng):
                         if not (thorough or good or (jm + len(cl)) % 3 == 0):
                             continue
                         yield ('chains', 5, [db, [cl]])
+                        yield ('chains', 14, [db, [cl], jc % 2])
+                        yield ('chains', 15, [db, [cl], jc % 3])
                         for m in (1, 2, 3):
                             if m == 3 and not (thorough or good):
                                 continue
                             yield ('chains', 6, [db, cl, m, 0])
                             yield ('chains', 9, [db, cl, m, 0])
+                            if m < 3:
+                                yield ('chains', 16, [db, cl, m, 0, (jc + m) % 2])
+                            if (jc + m) % 3 == 0:
+                                yield ('chains', 17, [db, cl, m, 0, (jc // 3) % 2])
+                            if (jc + m) % (8 if thorough else 40) == 0:
+                                yield ('chains', 18, [db, cl, m, 0, (jc // 8) % 2])
                             if good or thorough:
                                 yield ('chains', 10, [db, cl, m])
                             if (jc + m) % (4 if thorough else 12) == 0:
@@ -1040,6 +1178,9 @@ def gen(tier, rng):
                 yield ('unicode', 1, [db, cl])
                 yield ('unicode', 4, [db, [cl]])
                 yield ('unicode', 5, [db, [cl]])
+                yield ('unicode', 14, [db, [cl], ju % 2])
+                yield ('unicode', 15, [db, [cl], ju % 3])
+                yield ('unicode', 16, [db, cl, 1, 0, (ju // 2) % 2])
                 for m in (1, 2):
                     yield ('unicode', 3, [db, cl, m])
                     yield ('unicode', 6, [db, cl, m, 0])
@@ -1109,6 +1250,11 @@ def gen(tier, rng):
         yield ('random', 2, [db, cl, m])
         yield ('random', 4, [db, [cl] if rng.random() < 0.9 else []])
         yield ('random', 5, [db, [cl] if rng.random() < 0.9 else []])
+        yield ('random', 14, [db, [cl], _fmt_ok(db, i % 2)])
+        yield ('random', 15, [db, [cl], i % 3])
+        yield ('random', 16, [db, cl, m, 0, _fmt_ok(db, (i // 2) % 2)])
+        if i % 8 == 0:
+            yield ('random', 17, [db, cl, m, 0, _fmt_ok(db, (i // 8) % 2)])
         yield ('random', 7, [db, [cl] if rng.random() < 0.9 else [], m])
         yield ('random', 10, [db, cl, m])
         if i % 4 == 0:
@@ -1140,7 +1286,7 @@ def gen(tier, rng):
         if all(k and k != '' for k, _ in db):
             yield ('malformed', 6, [db, cl, m, 0])
 
-RULE = ('multisource: five databases split into 2-3 consecutive sources in every way (files zeta, alpha, mid), \'*\' alone / mixed with keys, children in earlier sources than their parents, through Parser.parse_files, format_from_strings, format_from_files and make_bibliography(.aux) of both engines, answered like the single-source entry points on the concatenation; threshold: 2-3 uncited parents with 1-4 children each, the children of different parents interleaved in every order in the citation list (all interleavings; the larger ones strided in the quick tier), min_crossrefs 1..4, a child cited twice in another case, a parent cited explicitly, \'*\' first / last, through add_extra_citations, command_read, both engines, format_bibliography, unfiltered selection; unicode: database keys and citations from pairs that str.lower() keeps apart but casefold would merge (ss/\u00df, \u017f/s, \u03c2/\u03c3, \ufb01/fi) and pairs that str.lower() identifies (\u00c9/\u00e9, \u03a3/\u03c3, Kelvin sign/k), through every function; chains: cross-reference chains of length 0..3 (every file order, every subset of the chain cited, with/without \'*\', with/without a sibling, min_crossrefs 1..3) through the bibtex parser with wanted_entries, command_read (incl. the keys left in bib_data.entries) and both engines end to end; exhaustive: every database of N <= 3 entries (keys x1, Y2, z3; each entry with crossref in {none, X1, Y2, Z3, dangling q9}) x every '
+RULE = ('formats: the filtered-reading functions also through the YAML and BibTeXML readers (which hand a generator to add_entries), add_entries(generator / list), an add_entry loop, and command_read / both engines on YAML and BibTeXML databases -- on the chains, pinned, unicode, random and (strided) exhaustive databases; multisource: five databases split into 2-3 consecutive sources in every way (files zeta, alpha, mid), \'*\' alone / mixed with keys, children in earlier sources than their parents, through Parser.parse_files, format_from_strings, format_from_files and make_bibliography(.aux) of both engines, answered like the single-source entry points on the concatenation; threshold: 2-3 uncited parents with 1-4 children each, the children of different parents interleaved in every order in the citation list (all interleavings; the larger ones strided in the quick tier), min_crossrefs 1..4, a child cited twice in another case, a parent cited explicitly, \'*\' first / last, through add_extra_citations, command_read, both engines, format_bibliography, unfiltered selection; unicode: database keys and citations from pairs that str.lower() keeps apart but casefold would merge (ss/\u00df, \u017f/s, \u03c2/\u03c3, \ufb01/fi) and pairs that str.lower() identifies (\u00c9/\u00e9, \u03a3/\u03c3, Kelvin sign/k), through every function; chains: cross-reference chains of length 0..3 (every file order, every subset of the chain cited, with/without \'*\', with/without a sibling, min_crossrefs 1..3) through the bibtex parser with wanted_entries, command_read (incl. the keys left in bib_data.entries) and both engines end to end; exhaustive: every database of N <= 3 entries (keys x1, Y2, z3; each entry with crossref in {none, X1, Y2, Z3, dangling q9}) x every '
         'citation list up to the length bound over {X1, x1, y2, z3, unknown q9, *} x min_crossrefs 1..min(N,2) (quick) / 1..N (thorough), through add_extra_citations, '
         'Interpreter.command_read (parse-time filtering) and, strided, format_bibliography / unfiltered selection / '
         '_get_crossreferenced_citations; the same databases x wanted lists through BibliographyData(entries, wanted_entries) and the '
